@@ -17,6 +17,7 @@ func genLease(c *Ctx) error {
 	if c.Tier == "thorough" {
 		nHist = 140
 	}
+	directedFailedHandoff(c)
 	for h := 0; h < nHist; h++ {
 		nNodes := r.Range(2, 3)
 		cs := c.Begin()
@@ -165,4 +166,51 @@ func genLease(c *Ctx) error {
 		}
 	}
 	return nil
+}
+
+// directedFailedHandoff: a handoff whose renewal fails leaves the primary in place; when that
+// primary later stops (demotion, shutdown) its lease must be destroyed; a later handoff works.
+func directedFailedHandoff(c *Ctx) {
+	for _, end := range []string{"demote", "down", "handoff"} {
+		cs := c.Begin()
+		do := func(op string) string { c.Count("op." + strings.Fields(op)[0]); return cs.Do(op) }
+		obs := func() {
+			if out := do("quiet"); out != "ok" {
+				c.Fail("failed-handoff scenario (" + end + "): nodes and lease service did not reach agreement")
+			}
+			do("roles")
+			do("events")
+			do("pctx 0")
+		}
+		do("cluster 2")
+		do("lease-ttl long") // no periodic renewal: the only renewal is the one inside the handoff
+		do("allow 0")
+		do("up 0")
+		do("up 1")
+		obs()
+		do("pctx-take 0")
+		do("renewfail-next 1")
+		do("handoff 0 1")
+		obs()
+		do("allow -1")
+		switch end {
+		case "demote":
+			do("demote 0")
+		case "down":
+			do("down 0")
+		default:
+			do("handoff 0 1")
+		}
+		if out := do("quiet"); out != "ok" {
+			c.Fail("failed-handoff scenario (" + end + "): nodes and lease service did not reach agreement after the primary stopped")
+		}
+		do("roles")
+		do("events")
+		do("allow 1")
+		do("quiet")
+		do("roles")
+		do("events")
+		c.Nontrivial("failed-handoff-" + end)
+		cs.End()
+	}
 }
